@@ -157,7 +157,17 @@ func (s *csim) restart(victim int, env ...string) (*vchild, string, error) {
 		// can never campaign or be counted again.  That is a failed restart, observed from the
 		// node's own status projection rather than from a wall-clock time-out.
 		var st nodeStatus
-		if json.Unmarshal([]byte(ln[6:]), &st) == nil && st.SnapIndex > 0 && st.SnapVoters == 0 {
+		json.Unmarshal([]byte(ln[6:]), &st)
+		// READY can be reported before startRaft has loaded the raft storage (all zeros): ask again until
+		// the storage shows what was replayed (a restart always finds a WAL) - a projection of the node's
+		// own state, not a time-out verdict; if it never shows, the check is simply not made
+		for t := 0; t < 100 && st.SnapIndex == 0 && st.LastIndex == 0 && !k.exited(); t++ {
+			time.Sleep(50 * time.Millisecond)
+			if st2, ok := k.status(2 * time.Second); ok {
+				st = st2
+			}
+		}
+		if st.SnapIndex > 0 && st.SnapVoters == 0 {
 			s.notes = append(s.notes, fmt.Sprintf("FAILED raft snapshot at index %d has an empty voter set", st.SnapIndex))
 			s.failWhy = "no-voters"
 			k.kill9()
@@ -548,7 +558,7 @@ func crashsim(args []string) error {
 				var res string
 				var err error
 				env := []string{}
-				if p != "kill" {
+				if p != "kill" && !strings.HasPrefix(p, "term@") {
 					env = append(env, "VERIF_CRASH="+p+":1")
 				}
 				k, res, err = s.restart(victim, env...)
@@ -579,11 +589,32 @@ func crashsim(args []string) error {
 					}
 				}
 				s.w.setTargets(all)
-			} else if p != "kill" {
+			} else if p != "kill" && !strings.HasPrefix(p, "term@") {
 				k.send(fmt.Sprintf("crash %s 1", p))
 				if ln := k.waitLine(5*time.Second, "ARMED "); !strings.HasPrefix(ln, "ARMED ") {
 					return fail(envErr("arming failed: " + ln))
 				}
+			}
+			if strings.HasPrefix(p, "term@") {
+				// clean stop once this incarnation has passed the hook (e.g. a whole snapshot: snap.compacted)
+				hook := p[len("term@"):]
+				s.w.run(*ops)
+				for deadline := time.Now().Add(30 * time.Second); time.Now().Before(deadline) && !k.exited(); {
+					k.send("hits")
+					if ln := k.waitLine(2*time.Second, "HITS "); strings.HasPrefix(ln, "HITS ") {
+						var h map[string]int
+						if json.Unmarshal([]byte(ln[len("HITS "):]), &h) == nil && h[hook] >= 1 {
+							s.trig = true
+							break
+						}
+					}
+					time.Sleep(50 * time.Millisecond)
+				}
+				s.w.stopNow()
+				k.term(30 * time.Second)
+				s.w.setTargets(s.survivors(victim))
+				s.recordDied(victim, "none", 0, "term")
+				continue
 			}
 			if p == "kill" {
 				s.w.run(4)
